@@ -47,11 +47,21 @@ impl RawValue {
     }
 
     pub fn get_value(&self) -> JValue {
+        self.try_get_value().expect("TODO handle error")
+    }
+
+    /// The raw value comes from (possibly foreign) data and is checked against its CID only,
+    /// so it may be not a valid JSON.
+    pub fn try_get_value(&self) -> Result<JValue, serde_json::Error> {
         let mut parsed_guard = self.parsed.borrow_mut();
 
-        let parsed_value = parsed_guard
-            .get_or_insert_with(|| serde_json::from_str(&self.raw).expect("TODO handle error"));
-        parsed_value.clone()
+        if let Some(parsed_value) = parsed_guard.as_ref() {
+            return Ok(parsed_value.clone());
+        }
+
+        let parsed_value: JValue = serde_json::from_str(&self.raw)?;
+        *parsed_guard = Some(parsed_value.clone());
+        Ok(parsed_value)
     }
 
     pub(crate) fn as_inner(&self) -> &str {
